@@ -228,6 +228,27 @@ def _run_s3(case):
                 state["fail_get_for"] = None
                 state["readback_failed"] = True
                 raise client_error("SlowDown", "GetObject", 503)
+            fp = state.get("fail_put_for")
+            if fp is not None and label.startswith("s3:put") and getattr(a, "prov", None) == fp[0] and ((phase == "before" and fp[1] == "lost") or (phase == "after" and fp[1] == "landed")):
+                # ONE transient error (503) on this holder's lease RENEWAL: either the PUT never lands ("lost"), or it lands and only the
+                # response is lost ("landed": the holder's remembered ETag is stale from now on). Neither may make it claim a lock it lost.
+                from ..fakes3 import client_error
+
+                state["fail_put_for"] = None
+                state["renew_failed"] = fp[1]
+                if phase == "after":
+                    state["current_actor_prov"] = getattr(a, "prov", None)
+                    scan_log()
+                raise client_error("SlowDown", "PutObject", 503)
+            if phase == "before" and label.startswith("s3:get") and state.get("fail_probe_for") is not None and getattr(a, "prov", None) == state["fail_probe_for"][0]:
+                # ONE or TWO (= every attempt) transient errors on the GET of this holder's is_held() probe (the fence the commit path consults)
+                from ..fakes3 import client_error
+
+                state["fail_probe_for"][1] -= 1
+                state["probe_failed"] = True
+                if state["fail_probe_for"][1] <= 0:
+                    state["fail_probe_for"] = None
+                raise client_error("SlowDown", "GetObject", 503)
             if phase == "after":
                 state["current_actor_prov"] = getattr(a, "prov", None)
                 scan_log()
@@ -285,7 +306,25 @@ def _run_s3(case):
                     state["bad_held"].append((i, "is_held() False right after acquire while the lock object carries its id"))
                 vt.sleep(spec.get("hold", 0.0))
                 if spec.get("renew"):
-                    p._renew_once()
+                    if spec.get("fail_renew"):
+                        state["fail_put_for"] = (i, spec["fail_renew"])
+                    try:
+                        p._renew_once()
+                    finally:
+                        state["fail_put_for"] = None
+                    scan_log()
+                if spec.get("fail_renew") or spec.get("fail_probe"):
+                    # the fence after a troubled renewal / with a troubled read: a superseded holder must still answer False
+                    if spec.get("fail_probe"):
+                        state["fail_probe_for"] = [i, int(spec["fail_probe"])]
+                        state["probe_nfail"] = int(spec["fail_probe"])
+                    sup = i in state["superseded"]
+                    try:
+                        h2 = p.is_held()
+                    finally:
+                        state["fail_probe_for"] = None
+                    scan_log()
+                    state["held_calls"].append((i, h2, sup))
                 state["inside"].remove(i)
                 if spec.get("fail_release") and rnd == 0:
                     state["fail_delete_for"] = i
@@ -362,6 +401,10 @@ def _run_s3(case):
         out["violations"].append(("s3/live-lock-of-another-holder-deleted", f"contender {by} deleted the lock object while it carried contender {prev}'s id and was {age:.0f}s old (lease {LEASE}s)"))
     if state.get("readback_failed"):
         out["labels"].append("release-readback-failed")
+    if state.get("renew_failed"):
+        out["labels"].append("renew-put-failed:" + state["renew_failed"])
+    if state.get("probe_failed"):
+        out["labels"].append("probe-get-failed:%d" % state.get("probe_nfail", 1))
     for i, what in state["bad_held"]:
         out["violations"].append(("s3/is_held-wrong", f"contender {i}: {what}"))
     for i, cond in state["resurrected"]:
@@ -543,6 +586,11 @@ FIXED = [
     {"kind": "s3", "timeout": 8.0, "all_orders": True, "contenders": [{"hold": 0.5}, {}], "extras": [{"kind": "age", "seconds": 120}, {"kind": "probe", "of": 0}]},
     {"kind": "s3", "timeout": 4.0, "tz": "EET-2", "contenders": [{"hold": 1000.0}, {}], "extras": [{"kind": "age", "seconds": 30}]},
     {"kind": "s3", "timeout": 8.0, "tz": "PST8", "contenders": [{"hold": 0.5}, {}], "extras": [{"kind": "age", "seconds": 120}]},
+    # a renewal whose PUT fails (never lands / lands but the response is lost) and a fence probe whose GET fails once, around a lease lapse
+    {"kind": "s3", "timeout": 8.0, "contenders": [{"hold": 0.5, "renew": True, "fail_renew": "lost"}, {}], "extras": [{"kind": "age", "seconds": 120}]},
+    {"kind": "s3", "timeout": 8.0, "contenders": [{"hold": 0.5, "renew": True, "fail_renew": "landed"}, {}], "extras": [{"kind": "age", "seconds": 120}, {"kind": "renew", "of": 0}]},
+    {"kind": "s3", "timeout": 8.0, "contenders": [{"hold": 0.5, "fail_probe": 1}, {}], "extras": [{"kind": "age", "seconds": 120}]},
+    {"kind": "s3", "timeout": 8.0, "contenders": [{"hold": 0.5, "fail_probe": 2}, {}], "extras": [{"kind": "age", "seconds": 120}]},
     # the same provider holds the lock in two successive tenures while a contender that saw the FIRST one expired is still on its way
     {"kind": "s3", "timeout": 8.0, "contenders": [{"rounds": 2}, {}], "extras": [{"kind": "age", "seconds": 120}]},
 ]
@@ -613,7 +661,8 @@ def pct_case(draw):
         lock_age = draw(st.sampled_from([0, 0, 400, 86400]))
     else:
         cont = [{"hold": draw(st.sampled_from([0.0, 0.5])), "renew": draw(st.booleans()), "rounds": draw(st.sampled_from([1, 1, 2])),
-                 "fail_release": draw(st.integers(0, 3)) == 0, "fail_readback": draw(st.integers(0, 3)) == 0} for _ in range(n)]
+                 "fail_release": draw(st.integers(0, 3)) == 0, "fail_readback": draw(st.integers(0, 3)) == 0,
+                 "fail_renew": draw(st.sampled_from([None, None, None, "lost", "landed"])), "fail_probe": draw(st.sampled_from([0, 0, 0, 1, 2]))} for _ in range(n)]
         extras = []
         for _ in range(draw(st.integers(0, 3))):
             k = draw(st.sampled_from(["age", "renew", "probe"]))
